@@ -200,6 +200,12 @@ def fieldOf (w : List WUnit) : Option (List Char) :=
 def readBack (s : List Char) : Option (List (List Char)) :=
   (lex (.word []) s).bind fun ws => ws.mapM fieldOf
 
+/-- blank-separated argument text -/
+def joinSp : List (List Char) → List Char
+  | [] => []
+  | [a] => a
+  | a :: b :: r => a ++ ' ' :: joinSp (b :: r)
+
 /-! ### arguments of a declaration utility (`typeset`, `export`, `readonly`) -/
 
 /-- `determine_expansion_mode` (yash-syntax/src/parser/simple_command.rs): the units after the first
